@@ -1,6 +1,7 @@
 """C14 - Response header values cannot split the response and are wire-safe."""
 import io
 import math
+import random
 
 from harness import core
 from harness.core import hs, hb, Check, Finding
@@ -106,6 +107,74 @@ def text_of(v):
 
 def has_ctl(s):
     return '\r' in s or '\n' in s or '\0' in s
+
+
+# ----------------------------------------------------------------------------------------
+# class: text that is not well-formed Unicode (lone surrogates).  Python strings that came from the OS (os.fsdecode file
+# names, os.environ, sys.argv: U+DC80..U+DCFF stand for undecodable bytes), from json.loads of an escaped half pair, or from
+# a 'surrogatepass' decode carry them.  Such a text has no UTF-8 form, so the only way to satisfy "every emitted value
+# decodes back to the original text as UTF-8" is to emit nothing for it (refuse at the setter or fail the header list);
+# any emitted value must still decode back to exactly the text that was set.  ORACLE-ONLY stream (not fed to the model).
+SUR_UNITS = ['\udc80', '\udce9', '\udcff', '\udcc3\udca9', '\udce2\udc82\udcac', '\ud800', '\udbff', '\udc00', '\udc7f',
+             '\udd00', '\udfff', '\ude00\ud83d', '\udcc3(', '\udcf0\udc9f\udc98\udc80']
+SUR_BASES = ['', 'ab', 'attachment; filename="caf.txt"', 'caf\xe9', '\u20acuro', '\U0001f600', 'a b']
+
+
+def has_sur(s):
+    return any(0xD800 <= ord(c) <= 0xDFFF for c in s)
+
+
+def gen_sur_text(rng):
+    base = rng.choice(SUR_BASES)
+    for _ in range(rng.choice([1, 1, 1, 2, 3])):
+        pos = rng.randint(0, len(base))
+        if rng.random() < .7:
+            u = rng.choice(SUR_UNITS)
+        else:
+            u = ''.join(chr(rng.choice([rng.randint(0xDC80, 0xDCFF), rng.randint(0xD800, 0xDFFF)]))
+                        for _ in range(rng.randint(1, 4)))
+        base = base[:pos] + u + base[pos:]
+    return base
+
+
+def sur_ops(rng, ops):
+    """put an ill-formed text into some string values of an op list (every place a value can stand)"""
+    def sub(v):
+        if isinstance(v, list) and v and v[0] == 's' and not has_ctl(v[1]) and rng.random() < .5:
+            return ['s', gen_sur_text(rng)]
+        return v
+    out = []
+    for op in ops:
+        op = list(op)
+        t = op[0]
+        if t in ('set', 'app', 'sdf', 'prop'):
+            op[2] = sub(op[2])
+        elif t in ('init', 'errh', 'err'):
+            op[2] = [[k, sub(v)] for k, v in op[2]]
+            if t == 'init':
+                op[3] = [[k, sub(v)] for k, v in op[3]]
+        elif t == 'ck' and isinstance(op[2], str) and rng.random() < .5:
+            op[2] = gen_sur_text(rng)
+        out.append(op)
+    return out
+
+
+def ops_texts(ops):
+    """every text offered as a header / cookie value by an op list"""
+    out = []
+    for op in ops:
+        t = op[0]
+        vs = []
+        if t in ('set', 'app', 'sdf', 'prop'):
+            vs = [op[2]]
+        elif t in ('init', 'errh', 'err'):
+            vs = [v for _, v in op[2]] + ([v for _, v in op[3]] if t == 'init' else [])
+        elif t == 'ck':
+            out.append(str(op[2]))
+        for v in vs:
+            if isinstance(v, list) and v and v[0] == 's':
+                out.append(v[1])
+    return out
 
 
 # ----------------------------------------------------------------------------------------
@@ -519,15 +588,54 @@ class C14(Check):
                                     f'status {code} emitted the entity header {name!r}'))
         return bad
 
+    def _check_sur(self, hl, where, sur, offered=()):
+        """ill-formed texts (lone surrogates) were offered: whatever is emitted must decode back to a text that was set.
+        An emitted value whose decoded form is none of the offered texts but equals an offered ill-formed text once the
+        surrogates are dropped / escaped / replaced is that text, mangled."""
+        bad = []
+        if not sur:
+            return bad
+        forms = {}
+        for t in sur:
+            for err in ('surrogateescape', 'ignore', 'replace', 'backslashreplace', 'xmlcharrefreplace', 'surrogatepass'):
+                try:
+                    forms.setdefault(t.encode('utf8', err).decode('latin1'), (t, err))
+                except UnicodeError:
+                    pass
+        for name, val in hl:
+            try:
+                if val.encode('latin1').decode('utf8') in offered:
+                    continue        # a faithful emission of a (well-formed) text that was set as well
+            except (UnicodeError, AttributeError):
+                pass
+            if isinstance(val, str) and val and val in forms:
+                t, err = forms[val]
+                bad.append((f'C14:ill-formed-text-emitted:{where}',
+                            f'{name}: the value {t!r} has no UTF-8 form but was emitted as {val!r} ({err}); '
+                            f'the wire bytes do not decode back to the text that was set'))
+            elif isinstance(val, str) and has_sur(val):
+                bad.append((f'C14:ill-formed-text-emitted:{where}', f'{name}: emitted value {val!r} carries a lone surrogate'))
+        return bad
+
     def _oracle_ops(self, ops, mode, body_len=3):
         """run the ops one by one on the real code and check every clause after each step"""
         import importlib
         response = importlib.import_module('ombott.response')
         bad = []
+        offered = ops_texts(ops)
+        sur = [t for t in offered if has_sur(t)]
         if mode == 'wsgi':
-            seen = run_wsgi(ops, b'B' * body_len)
+            try:
+                seen = run_wsgi(ops, b'B' * body_len)
+            except UnicodeEncodeError:
+                if sur:
+                    return bad      # the response failed as a whole: nothing reached the server
+                raise
+            if 'headers' not in seen and sur:
+                return bad
             outs = seen['outs']
             bad += self._check_emitted(seen['headers'], 'start_response', status_code_of(seen['status']))
+            bad += self._check_sur(seen['headers'], 'start_response', sur, offered)
             # rejected values must have raised
             for op, o in zip(ops, outs):
                 bad += self._check_guard(op, o)
@@ -539,9 +647,12 @@ class C14(Check):
             bad += self._check_guard(op, o)
             hl, exc = safe_headerlist(resp)
             if exc is not None:
+                if exc == 'UnicodeEncodeError' and sur:
+                    return bad      # ill-formed text was offered: emitting nothing at all keeps every clause
                 bad.append((f'C14:headerlist-raises:{exc}', f'after {op!r} reading headerlist raises {exc}'))
                 return bad
             bad += self._check_emitted(hl, 'headerlist', resp.status_code)
+            bad += self._check_sur(hl, 'headerlist', sur, offered)
             t = op[0]
             if t in ('set', 'app', 'sdf', 'prop') and o != 'ok' and op[2][0] != 'o' and hl != before:
                 bad.append((f'C14:rejected-but-changed:{t}', f'{op!r} raised {o} but the header list changed'))
@@ -645,6 +756,18 @@ class C14(Check):
                         cases.append(([op, ['st', code]], 'unit', 3))
                     cases.append(([['st', code], ['set', spell, v]], 'wsgi', 3))
                     cases.append(([['err', code, [[spell, v]]]], 'wsgi', 3))
+        # directed: ill-formed text (lone surrogates: OS-provided names, half pairs) x every entry point x both modes
+        srng = random.Random(rng.random())
+        sur_texts = [b[:len(b) // 2] + u + b[len(b) // 2:] for u in SUR_UNITS for b in ('', 'attachment; filename="caf.txt"')]
+        for txt in sur_texts:
+            v = ['s', txt]
+            for op in (['set', 'X-A', v], ['app', 'X-A', v], ['sdf', 'X-C', v], ['prop', 'ct', v],
+                       ['init', 200, [['X-A', v]], []], ['init', 200, [], [['X-A', v]]], ['err', 404, [['X-A', v]]],
+                       ['errh', 404, [['X-A', v]], 'list'], ['errh', 404, [['X-A', v]], 'dict'], ['ck', 'sid', txt]):
+                cases.append(([['set', 'X-B', ['s', 'ok']], op], 'unit', 3))
+                cases.append(([['app', 'X-A', ['s', 'first']], op], 'wsgi', 3))
+        for _ in range(n // 4):
+            cases.append((sur_ops(srng, norm_ops(gen_ops(srng))), srng.choice(['unit', 'wsgi']), srng.choice([0, 3])))
         for s in seeds:
             if 'ops' in s:
                 cases.append((s['ops'], s.get('kind', 'run') if s.get('kind') != 'run' else 'unit', s.get('body', 3)))
